@@ -104,6 +104,25 @@ def build_corpus(rng, thorough):
                 return (pid.to_er7(), [len(c.children) for f in pid.children for c in f.children])
             corpus.append((('component-text-in-custom-message', v, lvl), ca, None))
 
+            # the library's own constant given explicitly: it means the standard set whatever default was installed since
+            def lc(v=v, lvl=lvl):
+                from hl7apy.consts import DEFAULT_ENCODING_CHARS
+                s1 = parse_segment('PID|1||a^b&c~d||Doe^John', version=v, validation_level=S.TOLERANT,
+                                   encoding_chars=DEFAULT_ENCODING_CHARS)
+                return (s1.to_er7(DEFAULT_ENCODING_CHARS), S.dump_seg(s1, EC_SETS[0]), sorted(DEFAULT_ENCODING_CHARS.items()))
+            if lvl == S.TOLERANT and v < '2.7':
+                corpus.append((('library-constant-as-argument', v, lvl), lc, None))
+
+            # TOLERANT fall-back of the factory: the text is kept as the ST of the version that was asked for
+            def fb(v=v, lvl=lvl):
+                outs = []
+                for dt in ('NM', 'SI', 'DT'):
+                    o = datatype_factory(dt, 'n#a\\L\\b', v, S.TOLERANT)
+                    outs.append((type(o).__module__, o.to_er7(dict(EC_SETS[0], TRUNCATION='#') if v >= '2.7' else EC_SETS[0])))
+                return outs
+            if lvl == S.TOLERANT:
+                corpus.append((('tolerant-fallback-version', v), fb, None))
+
             def pf(v=v, lvl=lvl):
                 f = parse_field('A^B&C', name='PID_3', version=v, validation_level=lvl, encoding_chars=EC_SETS[0])
                 c = parse_component('X&Y', name='CX_4', datatype='HD', version=v, validation_level=lvl,
